@@ -160,7 +160,9 @@ def r08_2(ctx, rid="R08.2"):
                                 why = "a leaf is dropped while it may still hold values"
                             elif ty.startswith("proj:") and "RegexTreeMap" in ty:
                                 # the root being overwritten must be the placeholder swapped in just before
-                                ok = any(b[0] == "call" and b[1] == "std::mem::swap" for b in before) and any(b[0] == "set" and b[3][0] == "agg" and b[3][1] == ITEM and b[3][2] == "Empty" for b in before)
+                                ok = (any(b[0] == "call" and b[1] == "std::mem::swap" for b in before) and any(b[0] == "set" and b[3][0] == "agg" and b[3][1] == ITEM and b[3][2] == "Empty" for b in before)) \
+                                    or any(b[0] == "call" and b[1] == "std::mem::replace" and len(b[2]) == 2 and b[2][1][0] == "agg" and b[2][1][1] == ITEM and b[2][1][2] == "Empty" for b in before) \
+                                    or any(b[0] == "call" and b[1] == "std::mem::take" for b in before)
                                 why = "the root is overwritten without having been swapped out"
                             elif ty.startswith("proj:") and ("Node<V>" in ty or "Leaf<V>" in ty):
                                 # a field of self: only the regex handle may be dropped
@@ -173,6 +175,19 @@ def r08_2(ctx, rid="R08.2"):
                 r.ob("conservation:%s::%s" % (adt.rsplit("::", 1)[1], name), not bad, f.site,
                      "no stored value or subtree can be dropped except when proven empty / replaced by id / removed" if not bad else "; ".join(sorted(bad)[:3]))
         r.ob("conservation:drops-classified", n_drops >= 15, "", "%d drops of tree content classified on all paths" % n_drops)
+        # the placeholder Empty(false) of RegexTreeMap::{insert,remove,retain} is always overwritten
+        for name in ("insert", "remove", "retain"):
+            f = F.method(TREE, name)
+            r.analysed(f)
+            ok = True
+            for p in Sym(f, copies=False).paths():
+                if p.end[0] != "ret":
+                    continue
+                sw = [i for i, e in enumerate(p.events) if e[0] == "call" and e[1] in ("std::mem::swap", "std::mem::replace", "std::mem::take")]
+                wr = [i for i, e in enumerate(p.events) if e[0] == "write" and e[1] == ("field", ("param", 1), "root", TREE)]
+                if sw and not (wr and wr[-1] > sw[-1]):
+                    ok = False
+            r.ob("conservation:placeholder-overwritten:%s" % name, ok, f.site, "self.root is reassigned after the root was swapped out, on every path (the placeholder `Empty(false)` would lose the tree's case flag)")
     ctx.run_rule(rid, "content conservation in insert / remove / retain (def-to-drop must-use)", body, floor=13)
 
 
@@ -232,25 +247,12 @@ def r08_4(ctx):
                 ok = mentions(flag, lambda x: x[0] == "field" and x[2] == "ignore_case") or (flag[0] == "param") or (flag[0] == "field" and flag[1][0] == "variant" and flag[1][2] == "Empty")
                 r.ob("case-flag:%s->%s" % (f.key, cal.name), ok and flag[0] != "const", f.loc(span_line(t["s"])), "case flag of the new regex is %s" % show(flag, f))
         r.ob("case-flag:sites", n >= 6, "", "%d regex constructions inside the tree" % n)
-        # the placeholder Empty(false) of RegexTreeMap::{insert,remove,retain} is always overwritten
-        for name in ("insert", "remove", "retain"):
-            f = F.method(TREE, name)
-            r.analysed(f)
-            ok = True
-            for p in Sym(f, copies=False).paths():
-                if p.end[0] != "ret":
-                    continue
-                sw = [i for i, e in enumerate(p.events) if e[0] == "call" and e[1] == "std::mem::swap"]
-                wr = [i for i, e in enumerate(p.events) if e[0] == "write" and e[1] == ("field", ("param", 1), "root", TREE)]
-                if sw and not (wr and wr[-1] > sw[-1]):
-                    ok = False
-            r.ob("case-flag:placeholder-overwritten:%s" % name, ok, f.site, "self.root is reassigned after the swap on every path")
         # RegexTreeMap::new / UniqueRegexTreeMap::new keep the flag
         f = F.method(TREE, "new")
         rets = [p.end[1] for p in Sym(f).paths() if p.end[0] == "ret"]
         okn = len(rets) == 1 and mentions(rets[0], lambda x: x[0] == "agg" and x[2] == "Empty" and x[3][0][1] == ("param", 1))
         r.ob("case-flag:tree-new", okn, f.site, "an empty tree remembers the case flag it was created with")
-    ctx.run_rule("R08.4", "case-flag provenance of every regex built inside the tree", body, floor=10)
+    ctx.run_rule("R08.4", "case-flag provenance of every regex built inside the tree", body, floor=7)
 
 
 def r08_6(ctx):
